@@ -15,6 +15,9 @@ FAMILIES = {
     'int': ('number:int:signed', True, ['-2147483648', '-10', '-9', '-1', '0', '1', '9', '10', '2147483647']),
     'big': ('number:bigint', True, ['0', '7', '18446744073709551615', '18446744073709551614', '100']),
     'dec': ('number:decimal:10:2:signed', True, ['-10.00', '-9.99', '-0.01', '0.00', '0.01', '9.99', '10.00', '99999999.99']),
+    # values that agree in more significant digits than a float holds
+    'bdec': ('number:decimal:24:2:signed', True, ['123456789012345678.01', '123456789012345678.02', '123456789012345678.03',
+                                                  '-123456789012345678.02', '-123456789012345678.01', '0.00']),
     'cur': ('number:currency', True, ['-1.0000', '0.0000', '0.0001', '1.0000', '10.0000', '9.9999']),
     'flt': ('number:float:signed', True, ['-1.000000E+001', '-9.000000E+000', '0.000000E+000', '1.000000E-003',
                                           '9.999999E-004', '1.000000E+000', '9.000000E+000', '1.000000E+001']),
@@ -22,8 +25,8 @@ FAMILIES = {
     'dt': ('datetime', False, ['2020-01-01T00:00:00.000000Z', '2020-01-01T00:00:00.000001Z', '1999-12-31T23:59:59.999999Z',
                                '2020-10-01T00:00:00.000000Z', '2020-09-30T23:59:59.000000Z']),
 }
-MINMAX_FAMILIES = ['seq', 'int', 'big', 'dec', 'cur', 'flt', 'dbl', 'dt']
-NUM = {'seq', 'int', 'big', 'dec', 'cur', 'flt', 'dbl'}
+MINMAX_FAMILIES = ['seq', 'int', 'big', 'dec', 'bdec', 'cur', 'flt', 'dbl', 'dt']
+NUM = {'seq', 'int', 'big', 'dec', 'bdec', 'cur', 'flt', 'dbl'}
 
 
 def num_key(fam, s):
